@@ -92,9 +92,10 @@ class CovMat(object):
         if isinstance(matrix, CovMat):
             matrix = matrix.mat
 
-        self._mat = np.array(matrix)
-        if self._mat.ndim != 2 or self._mat.shape[0] != self._mat.shape[1]:
-            raise ValueError("Covariance matrix must be square matrix, shape %r given." % (self._mat.shape,))
+        _mat = np.array(matrix)
+        if _mat.ndim != 2 or _mat.shape[0] != _mat.shape[1]:
+            raise ValueError("Covariance matrix must be square matrix, shape %r given." % (_mat.shape,))
+        self._mat = _mat
         self._size = self._mat.shape[0]
         self._cond = None
 
